@@ -1,6 +1,7 @@
 import Driver.Util
 import MdspanVerif.Model.LayoutM
 import MdspanVerif.Model.PaddedM
+import MdspanVerif.Model.LayoutI
 import MdspanVerif.Model.Adm
 /-! `map` op family: the machine-layer mirror of the five layout mappings. -/
 open Mdspan
@@ -24,38 +25,38 @@ def MapCtx.ps (c : MapCtx) : M Int :=
   let se : Option Nat := if left then (c.pat.headD none) else (c.pat.getLastD none)
   padStrideCtorM c.T c.sp se c.pv n epad
 
-def mapOff (c : MapCtx) (is : List Int) : M Int :=
+/-- the mapping object as a value of the machine layer (`Model/LayoutI.lean`); constructing a padded mapping computes its padded
+    stride (`padStrideCtorM`), which may already be undefined -/
+def MapCtx.layoutI (c : MapCtx) : M (Option LayoutI) :=
   match c.kind with
-  | "right" => rightOffM c.T c.es is
-  | "left" => leftOffM c.T c.es is
-  | "stride" => strideOffM c.T is c.ss
-  | "lpad" => do let ps ← c.ps; lpadOffM c.T ps c.es is
-  | "rpad" => do let ps ← c.ps; rpadOffM c.T ps c.es is
-  | _ => pure 0
+  | "right" => pure (some (.right c.es))
+  | "left" => pure (some (.left c.es))
+  | "stride" => pure (some (.stride c.es c.ss))
+  | "lpad" => do let ps ← c.ps; pure (some (.lpad c.es ps))
+  | "rpad" => do let ps ← c.ps; pure (some (.rpad c.es ps))
+  | _ => pure none
 
-def mapSpan (c : MapCtx) : M Int :=
-  match c.kind with
-  | "right" | "left" => spanLRM c.T c.es
-  | "stride" => spanStrideM c.T c.es c.ss
-  | "lpad" => do let ps ← c.ps; lpadSpanM c.T ps c.es
-  | "rpad" => do let ps ← c.ps; rpadSpanM c.T ps c.es
-  | _ => pure 0
+-- the four member functions are `LayoutI.offM / spanM / strideM / exhM`, the functions the umbrella theorems
+-- `C14_adm_offset / _span / _stride / _exh` (Props/C14h.lean) are about
+def mapOff (c : MapCtx) (is : List Int) : M Int := do
+  match (← c.layoutI) with
+  | some L => L.offM c.T is
+  | none => pure 0
 
-def mapStride (c : MapCtx) (r : Nat) : M Int :=
-  match c.kind with
-  | "right" => rightStrideM c.T c.es r
-  | "left" => leftStrideM c.T c.es r
-  | "stride" => pure (c.ss.getD r 0)
-  | "lpad" => do let ps ← c.ps; lpadStrideM c.T ps c.es r
-  | "rpad" => do let ps ← c.ps; rpadStrideM c.T ps c.es r
-  | _ => pure 0
+def mapSpan (c : MapCtx) : M Int := do
+  match (← c.layoutI) with
+  | some L => L.spanM c.T
+  | none => pure 0
 
-def mapExh (c : MapCtx) : M Bool :=
-  match c.kind with
-  | "stride" => isExhStrideM c.T c.es c.ss
-  | "lpad" => do let ps ← c.ps; pure (padIsExh c.es.length (c.es.headD 0) ps)
-  | "rpad" => do let ps ← c.ps; pure (padIsExh c.es.length (c.es.getLastD 0) ps)
-  | _ => pure true
+def mapStride (c : MapCtx) (r : Nat) : M Int := do
+  match (← c.layoutI) with
+  | some L => L.strideM c.T r
+  | none => pure 0
+
+def mapExh (c : MapCtx) : M Bool := do
+  match (← c.layoutI) with
+  | some L => L.exhM c.T
+  | none => pure true
 
 def mapAlwaysExh (c : MapCtx) : Bool :=
   match c.kind with
